@@ -93,6 +93,8 @@ pub enum Op {
     RemoveSelfInsert(KindSpec),
     /// clone the ping handle / the sender
     CloneHandle(usize),
+    /// fd: change interest/mode of the Generic, then update()
+    Reconf(usize, bool, bool, u8),
 }
 
 #[derive(Clone, Debug)]
@@ -125,6 +127,10 @@ pub struct Cfg {
     pub cb_remove_self_insert: bool,
     pub cb_set_deadline: Vec<i8>,
     pub cb_nodrain: bool,
+    /// fd re-configurations offered by `Reconf` (interest r, w, mode)
+    pub reconf: Vec<(bool, bool, u8)>,
+    /// alternative initial populations (chosen by a free choice when more than one)
+    pub initial_sets: Vec<Vec<KindSpec>>,
     pub check_epoll: bool,
     pub check_release: bool,
     pub prune: bool,
@@ -162,6 +168,8 @@ impl Cfg {
             cb_remove_self_insert: false,
             cb_set_deadline: vec![],
             cb_nodrain: false,
+            reconf: vec![],
+            initial_sets: vec![],
             check_epoll: false,
             check_release: true,
             prune: false,
@@ -181,7 +189,8 @@ pub struct MA {
     // ping
     pub ping: bool,
     pub handles: u8,
-    /// close written when pe_seq was this value (consumed by a later process_events)
+    /// close written when pe_reg_seq was this value (consumed by a later process_events that
+    /// starts while the source is registered)
     pub close_at: Option<u32>,
     // channel
     pub q: VecDeque<u8>,
@@ -202,7 +211,12 @@ pub struct MA {
     pub called: bool,
     pub disturbed: bool,
     pub pe_at_start: u32,
+    /// fd: (interest r, interest w, counter state) when the dispatch started waiting
+    pub fd_at_start: (bool, bool, u8),
+    /// fd: an event collected under the previous registration is still in the current batch
+    pub stale_in_batch: bool,
     // causal features
+    pub ever_upd_while_disabled: bool,
     pub upd_while_disabled: bool,
     pub removed_by: u8, // 0 not removed, 1 external, 2 self-callback, 3 other-callback, 4 post-action/implicit
 }
@@ -214,6 +228,7 @@ pub struct Rt {
     pub senders: Vec<Sender<u8>>,
     pub efd: Option<Rc<OwnedFd>>,
     pub timer: Option<Dispatcher<'static, Tracked<Timer>, Ctx>>,
+    pub fdd: Option<Dispatcher<'static, Tracked<Generic<FdRef>>, Ctx>>,
 }
 
 pub enum Payload {
@@ -295,10 +310,18 @@ impl Ctx {
         });
     }
 
+    /// observable behaviour (callbacks, results): feeds the distinct-outcome count
     fn log(&mut self, s: String) {
         s.hash(&mut self.obs);
         if let Some(v) = self.verbose.as_mut() {
             v.push(s.clone());
+        }
+    }
+
+    /// harness-side narration: only shown in verbose replays
+    fn note(&mut self, s: String) {
+        if let Some(v) = self.verbose.as_mut() {
+            v.push(s);
         }
     }
 
@@ -333,6 +356,9 @@ impl Ctx {
             called: false,
             disturbed: false,
             pe_at_start: 0,
+            fd_at_start: (false, false, 0),
+            stale_in_batch: false,
+            ever_upd_while_disabled: false,
             upd_while_disabled: false,
             removed_by: 0,
         };
@@ -343,6 +369,7 @@ impl Ctx {
             senders: vec![],
             efd: None,
             timer: None,
+            fdd: None,
         };
         let guard = CbGuard(track.clone());
         let res: Result<RegistrationToken, String> = match spec {
@@ -402,13 +429,27 @@ impl Ctx {
                     },
                     mode_of(mode),
                 );
-                self.h
-                    .insert_source(Tracked::new(src, track.clone()), move |rd, _, ctx: &mut Ctx| {
-                        let _g = &guard;
-                        let r = ctx.on_cb(id, Payload::Fd(rd));
-                        Ok(r.post.unwrap_or(PostAction::Continue))
-                    })
-                    .map_err(|e| format!("{e:?}"))
+                if self.cfg.reconf.is_empty() {
+                    self.h
+                        .insert_source(Tracked::new(src, track.clone()), move |rd, _, ctx: &mut Ctx| {
+                            let _g = &guard;
+                            let r = ctx.on_cb(id, Payload::Fd(rd));
+                            Ok(r.post.unwrap_or(PostAction::Continue))
+                        })
+                        .map_err(|e| format!("{e:?}"))
+                } else {
+                    let disp = Dispatcher::new(
+                        Tracked::new(src, track.clone()),
+                        move |rd: Readiness, _: &mut calloop::generic::NoIoDrop<FdRef>, ctx: &mut Ctx| {
+                            let _g = &guard;
+                            let r = ctx.on_cb(id, Payload::Fd(rd));
+                            Ok(r.post.unwrap_or(PostAction::Continue))
+                        },
+                    );
+                    let r = self.h.register_dispatcher(disp.clone()).map_err(|e| format!("{e:?}"));
+                    rt.fdd = Some(disp);
+                    r
+                }
             }
         };
         match res {
@@ -537,6 +578,15 @@ impl Ctx {
                 _ => {}
             }
         }
+        if let KindSpec::Fd { r, w, mode } = a.spec {
+            if cur != Some(i) && a.enabled {
+                for &(nr, nw, nm) in &c.reconf {
+                    if (nr, nw, nm) != (r, w, mode) {
+                        v.push(Op::Reconf(i, nr, nw, nm));
+                    }
+                }
+            }
+        }
         if let KindSpec::Timer(_) = a.spec {
             let grid = if in_cb { &c.cb_set_deadline } else { &c.top_set_deadline };
             if cur != Some(i) {
@@ -621,7 +671,7 @@ impl Ctx {
             );
         } else if self.m[id].alive && !self.m[id].enabled && !lat_ok {
             let a = &self.m[id];
-            let uwd = a.upd_while_disabled.to_string();
+            let uwd = (a.upd_while_disabled || a.ever_upd_while_disabled).to_string();
             self.violate(
                 &["C01", "C07"],
                 "callback-while-disabled",
@@ -686,12 +736,13 @@ impl Ctx {
                 let evns = instant_to_ns(ev);
                 let a = &self.m[id];
                 let (dl, armed, rib) = (a.deadline, a.armed, a.rearmed_in_batch);
+                let uwd = a.ever_upd_while_disabled;
                 self.clause("timer-fire");
                 if !armed {
                     self.violate(
                         &["C01", "C05"],
                         "timer-fired-without-arming",
-                        &[("rearmed_in_batch", rib.to_string())],
+                        &[("rearmed_in_batch", rib.to_string()), ("updated_while_disabled", uwd.to_string())],
                         format!("timer {id} fired but the model has no live arming (event {evns})"),
                     );
                 } else if let Some(dl) = dl {
@@ -699,7 +750,7 @@ impl Ctx {
                         self.violate(
                             &["C05", "C01"],
                             "timer-early",
-                            &[("rearmed_in_batch", rib.to_string())],
+                            &[("rearmed_in_batch", rib.to_string()), ("updated_while_disabled", uwd.to_string())],
                             format!("timer {id} fired at {now} before its deadline {dl}"),
                         );
                     }
@@ -707,7 +758,7 @@ impl Ctx {
                         self.violate(
                             &["C05"],
                             "timer-wrong-event",
-                            &[("rearmed_in_batch", rib.to_string())],
+                            &[("rearmed_in_batch", rib.to_string()), ("updated_while_disabled", uwd.to_string())],
                             format!("timer {id} fired with event {evns}, current deadline is {dl}"),
                         );
                     }
@@ -719,7 +770,14 @@ impl Ctx {
                 if let KindSpec::Fd { r, w, mode } = a.spec {
                     let act_r = a.fdc > 0;
                     let act_w = a.fdc < 2;
-                    let ok_bits = (!rd.readable || (act_r && r)) && (!rd.writable || (act_w && w));
+                    let mut ok_bits = (!rd.readable || (act_r && r)) && (!rd.writable || (act_w && w));
+                    if !ok_bits && a.disturbed {
+                        // the event was collected before an earlier callback of this batch
+                        // re-registered / drained this source: judge it against the registration
+                        // and fd state in force when the dispatch started waiting
+                        let (sr, sw, sc) = a.fd_at_start;
+                        ok_bits = (!rd.readable || (sc > 0 && sr)) && (!rd.writable || (sc < 2 && sw));
+                    }
                     let some = rd.readable || rd.writable;
                     if !ok_bits || !some {
                         let fdc = a.fdc;
@@ -735,7 +793,7 @@ impl Ctx {
                     }
                     if mode == 2 {
                         self.clause("oneshot");
-                        if !a.os_armed {
+                        if !a.os_armed && !a.stale_in_batch {
                             self.violate(
                                 &["C02"],
                                 "oneshot-delivered-twice",
@@ -747,8 +805,12 @@ impl Ctx {
                     drain_fd = rd.readable;
                 }
                 let a = &mut self.m[id];
-                a.os_armed = false;
-                a.edge_pending = false;
+                if a.stale_in_batch {
+                    a.stale_in_batch = false;
+                } else {
+                    a.os_armed = false;
+                    a.edge_pending = false;
+                }
             }
         }
         self.m[id].called = true;
@@ -769,7 +831,7 @@ impl Ctx {
             self.deviated = true;
             let op = menu[c as usize - 1];
             self.decoded.push(format!("  in cb of {id}: {op:?}"));
-            self.log(format!("cbop {op:?}"));
+            self.note(format!("cbop {op:?}"));
             match op {
                 Op::RetRemove => ret.post = Some(PostAction::Remove),
                 Op::RetDisable => ret.post = Some(PostAction::Disable),
@@ -865,6 +927,7 @@ impl Ctx {
         let cur = self.cur_actor();
         // callbacks run after the wait: the clock now is the poll time of this dispatch
         let poll_now = seqhooks::now_ns() as i64;
+        let pe_now = self.rt[j].track.pe_seq.get();
         let a = &mut self.m[j];
         match a.spec {
             KindSpec::Timer(_) => {
@@ -881,6 +944,11 @@ impl Ctx {
                 }
             }
             KindSpec::Fd { r, w, .. } => {
+                if in_dispatch && a.owed && pe_now == a.pe_at_start {
+                    // its event of this batch was collected under the previous registration and
+                    // will still be delivered: it belongs to the previous arming
+                    a.stale_in_batch = true;
+                }
                 a.os_armed = true;
                 let ready = (r && a.fdc > 0) || (w && a.fdc < 2);
                 if ready {
@@ -902,7 +970,7 @@ impl Ctx {
             let a = &self.m[i];
             if let (KindSpec::Ping, Some(at), true) = (a.spec, a.close_at, a.alive) {
                 let tr = &self.rt[i].track;
-                if tr.pe_seq.get() > at && !tr.in_pe.get() {
+                if tr.pe_reg_seq.get() > at && !tr.in_pe.get() {
                     let a = &mut self.m[i];
                     a.alive = false;
                     a.enabled = false;
@@ -967,7 +1035,13 @@ impl Ctx {
                     );
                 } else {
                     let in_dispatch = self.in_dispatch;
+                    let pe_now = self.rt[j].track.pe_seq.get();
                     let a = &mut self.m[j];
+                    if in_dispatch && a.owed && pe_now == a.pe_at_start {
+                        if let KindSpec::Fd { .. } = a.spec {
+                            a.stale_in_batch = true;
+                        }
+                    }
                     a.enabled = true;
                     a.lat_pe = None;
                     a.upd_while_disabled = false;
@@ -1005,6 +1079,7 @@ impl Ctx {
                     // the statement does not say what update() of a disabled source returns;
                     // it must stay silent until enable()
                     self.m[j].upd_while_disabled = true;
+                    self.m[j].ever_upd_while_disabled = true;
                     self.log(format!("update-disabled {j} -> {}", r.is_ok()));
                 }
             }
@@ -1026,6 +1101,7 @@ impl Ctx {
                     self.model_reregistered(j, old);
                 } else {
                     self.m[j].upd_while_disabled = true;
+                    self.m[j].ever_upd_while_disabled = true;
                 }
             }
             Op::Cause(j) => {
@@ -1061,7 +1137,7 @@ impl Ctx {
                 let spec = self.m[j].spec;
                 match spec {
                     KindSpec::Ping => {
-                        let pe = self.rt[j].track.pe_seq.get();
+                        let pe = self.rt[j].track.pe_reg_seq.get();
                         self.rt[j].pings.pop();
                         let a = &mut self.m[j];
                         a.handles -= 1;
@@ -1112,6 +1188,21 @@ impl Ctx {
                         a.edge_pending = true;
                     }
                 }
+            }
+            Op::Reconf(j, r, w, mode) => {
+                let tok = self.rt[j].token.expect("token");
+                if let Some(d) = self.rt[j].fdd.as_ref() {
+                    let mut s = d.as_source_mut();
+                    s.inner.interest = Interest { readable: r, writable: w };
+                    s.inner.mode = mode_of(mode);
+                }
+                let res = self.h.update(&tok);
+                if let Err(e) = res {
+                    self.violate(&["C08", "C15", "C02"], "update-failed", &[("kind", "Fd".into())],
+                        format!("update of enabled fd {j} with new interest/mode failed: {e:?}"));
+                }
+                self.m[j].spec = KindSpec::Fd { r, w, mode };
+                self.model_reregistered(j, None);
             }
             Op::Stale(j, k) => self.stale_op(j, k),
             Op::Advance => seqhooks::advance(Duration::from_nanos(STEP_NS)),
@@ -1166,8 +1257,12 @@ impl Ctx {
         for (i, a) in self.m.iter_mut().enumerate() {
             a.called = false;
             a.disturbed = false;
+            a.stale_in_batch = false;
             a.rearmed_in_batch = false;
             a.pe_at_start = self.rt[i].track.pe_seq.get();
+            if let KindSpec::Fd { r, w, .. } = a.spec {
+                a.fd_at_start = (r, w, a.fdc);
+            }
             a.owed = false;
             if !(a.alive && a.enabled) {
                 continue;
@@ -1256,7 +1351,7 @@ impl Ctx {
                 let tr = self.rt[i].track.clone();
                 let (sd, cd) = (tr.src_dropped.get(), tr.cb_dropped.get());
                 let kind = a.spec.name();
-                let is_disp = self.rt[i].timer.is_some();
+                let is_disp = self.rt[i].timer.is_some() || self.rt[i].fdd.is_some();
                 if sd > 1 || cd > 1 {
                     self.violate(&["C06"], "double-drop", &[("kind", kind.into())],
                         format!("actor {i} ({kind}) source dropped {sd}x, callback dropped {cd}x"));
@@ -1264,10 +1359,14 @@ impl Ctx {
                 if !a.alive {
                     if is_disp {
                         // harness still owns a Dispatcher handle: the loop must have released its own
-                        let d = self.rt[i].timer.take().unwrap();
-                        let r = catch_unwind(AssertUnwindSafe(move || d.into_source_inner()));
+                        let r = if let Some(d) = self.rt[i].timer.take() {
+                            catch_unwind(AssertUnwindSafe(move || drop(d.into_source_inner())))
+                        } else {
+                            let d = self.rt[i].fdd.take().unwrap();
+                            catch_unwind(AssertUnwindSafe(move || drop(d.into_source_inner())))
+                        };
                         match r {
-                            Ok(src) => drop(src),
+                            Ok(()) => {}
                             Err(_) => self.violate(&["C06"], "not-released", &[("kind", kind.into()), ("removed_by", a.removed_by.to_string())],
                                 format!("Dispatcher::into_source_inner of removed actor {i} ({kind}) failed: the loop still holds it")),
                         }
@@ -1313,8 +1412,9 @@ impl Ctx {
         let armings = self.m.iter().filter(|a| a.alive && a.enabled && a.armed && matches!(a.spec, KindSpec::Timer(_))).count();
         if stats.timers.len() != armings {
             let rib = self.ever_rearmed_in_batch;
+            let uwd = self.m.iter().any(|a| a.ever_upd_while_disabled && matches!(a.spec, KindSpec::Timer(_)));
             self.clause("timer-heap");
-            self.violate(&["C05"], "timer-heap-residue", &[("rearmed_in_batch", rib.to_string())],
+            self.violate(&["C05"], "timer-heap-residue", &[("rearmed_in_batch", rib.to_string()), ("updated_while_disabled", uwd.to_string())],
                 format!("timer heap holds {} entries but the model has {armings} live armings", stats.timers.len()));
         }
         if self.cfg.check_epoll {
@@ -1487,7 +1587,16 @@ pub fn run_history(cfg: &Rc<Cfg>, verbose: bool) -> (Outcome, Option<Vec<String>
         poisoned: false,
         ever_rearmed_in_batch: false,
     };
-    for &k in &cfg.initial.clone() {
+    let initial = if cfg.initial_sets.len() > 1 {
+        let c = explore::choose(cfg.initial_sets.len() as u32, Kind::Free);
+        ctx.decoded.push(format!("initial {:?}", cfg.initial_sets[c as usize]));
+        cfg.initial_sets[c as usize].clone()
+    } else if cfg.initial_sets.len() == 1 {
+        cfg.initial_sets[0].clone()
+    } else {
+        cfg.initial.clone()
+    };
+    for &k in &initial {
         ctx.insert(k);
     }
     ctx.after_step();
@@ -1501,7 +1610,7 @@ pub fn run_history(cfg: &Rc<Cfg>, verbose: bool) -> (Outcome, Option<Vec<String>
         let op = menu[c as usize - 1];
         ctx.depth_used += 1;
         ctx.decoded.push(format!("{op:?}"));
-        ctx.log(format!("op {op:?}"));
+        ctx.note(format!("op {op:?}"));
         if !step(&mut el, &mut ctx, op) {
             break;
         }
@@ -1524,7 +1633,7 @@ pub fn run_history(cfg: &Rc<Cfg>, verbose: bool) -> (Outcome, Option<Vec<String>
     drop(el);
     if cfg.check_release && !poisoned {
         for (i, r) in rt.iter().enumerate() {
-            let held = r.timer.is_some();
+            let held = r.timer.is_some() || r.fdd.is_some();
             let (sd, cd) = (r.track.src_dropped.get(), r.track.cb_dropped.get());
             let expect = if held && m[i].alive { 0 } else { 1 };
             if sd != expect || cd != expect {
